@@ -62,6 +62,22 @@ def decode(obj: Any) -> Any:
     return obj
 
 
+def reorder(cfg: Any, salt: int) -> Any:
+    """The same configuration with the keys of every mapping written in another order (a YAML / JSON mapping has none):
+    salt % 3 == 0 keeps the order, 1 reverses it, 2 orders by a hash of (salt, key).  Lists keep their order."""
+    if isinstance(cfg, dict):
+        keys = list(cfg.keys())
+        mode = salt % 3
+        if mode == 1:
+            keys.reverse()
+        elif mode == 2:
+            keys.sort(key=lambda k: hashlib.sha256(("%d/%s" % (salt, k)).encode()).digest())
+        return {k: reorder(cfg[k], salt) for k in keys}
+    if isinstance(cfg, list):
+        return [reorder(v, salt) for v in cfg]
+    return cfg
+
+
 def case_digest(case: Any) -> str:
     return hashlib.sha256(
         json.dumps(encode(case), sort_keys=True, separators=(",", ":")).encode()
